@@ -137,10 +137,52 @@ def descent_sites(prog):
 
 # ------------------------------------------------------------------ D1b cost shape
 class CountingInterp(Interp):
+    """counts interpreted calls per function and iterations per loop (a work-list loop is a traversal as much as a recursion is)"""
+    MAX_UNROLL = 10 ** 9
+
     def __init__(self, prog):
         super().__init__(prog)
         self.calls = {}
         self.MAX_STEPS = 30_000_000
+
+    def _loop_key(self, st):
+        return f'loop@{self.cur[-1].qual if self.cur else "?"}:{st.lineno}'
+
+    def st_While(self, st, fr):
+        key = self._loop_key(st)
+        while True:
+            c = self.ev(st.test, fr)
+            if not self.truth(c, st):
+                break
+            self.calls[key] = self.calls.get(key, 0) + 1
+            try:
+                self.block(st.body, fr)
+            except ContinueEx:
+                continue
+            except BreakEx:
+                return
+        if st.orelse:
+            self.block(st.orelse, fr)
+
+    def st_For(self, st, fr):
+        key = self._loop_key(st)
+        it = self.ev(st.iter, fr)
+        items = self.iterate(it)
+        if items is None:
+            raise Fail(f'for over {it!r} line {st.lineno}')
+        broke = False
+        for x in items:
+            self.calls[key] = self.calls.get(key, 0) + 1
+            self.assign(st.target, x, fr)
+            try:
+                self.block(st.body, fr)
+            except ContinueEx:
+                continue
+            except BreakEx:
+                broke = True
+                break
+        if not broke and st.orelse:
+            self.block(st.orelse, fr)
 
     def invoke(self, f, args, kw):
         q = f.qual
@@ -282,7 +324,7 @@ def check(run):
     prog = Program()
     run.explanation = 'visited-guard rule over descent sites; traversal call counts on the maximal-sharing DAG family; loop iteration counts of the parsers on adversarial count/length fields.'
     run.rule('D1a', 'every descent over `.refs` (recursive call or work-list push) in the BoC code is control-dependent on a first-visit membership test; printing exempt; construction-time hashing does not recurse', 1)
-    run.rule('D1b', 'traversal calls for ordering / serialising / hashing / comparing the n-cell maximal-sharing chain grow at most linearly in n (n = 6, 10, 14, 18)', 6)
+    run.rule('D1b', 'traversal calls for ordering / serialising / hashing / comparing the n-cell maximal-sharing chain grow at most linearly in n (n = 5, 9, 13; thorough 6..22)', 6)
     run.rule('D2', 'no loop of the BoC / TL parsers runs more than 8 x len(input) + 64 iterations when a count or length field is set to its maximum on a short input', 10)
     run.rule('D2s', 'every loop whose bound is derived from the input bytes is known and covered by an adversarial scenario', 3)
     run.trust('CPython ast', 'checker interpreter (call and loop counters)', 'sa/bocspec.py encoder')
@@ -336,7 +378,7 @@ def check(run):
         'Cell == equal DAG in other objects': 'pair-eq',
         'Cell.to_boc of a root over two equal DAGs in distinct objects': 'pair-boc',
     }
-    sizes = (6, 10, 14, 18)
+    sizes = (6, 10, 14, 18, 22) if run.tier == 'thorough' else (5, 9, 13)
     for name, op in ops.items():
         counts = []
         worst = None
@@ -398,6 +440,7 @@ def check(run):
         yield 'tot_cells_size = 2^32-1', base[:18] + b'\xff\xff\xff\xff' + base[22:]
         idx, _ = bocspec.encode([SCell('10101010', [SCell('1111')])], size=4, off=4, has_idx=True)
         yield 'cells_num = 2^32-1 with index', idx[:6] + b'\xff\xff\xff\xff' + idx[10:]
+        yield 'offset_bytes = 0 with index, cells_num = 2^32-1', idx[:5] + b'\x00' + b'\xff\xff\xff\xff' + idx[10:]
         yield 'size_bytes = 7', base[:4] + bytes([base[4] | 7]) + base[5:]
         yield 'offset_bytes = 255', base[:5] + b'\xff' + base[6:]
         big, _ = bocspec.encode([SCell('1' * 8)], size=1, off=1)
